@@ -19,7 +19,7 @@ theorem pend_alive_inWheel {tick : Bool} {w : World} {j : JState} (h : SimJ tick
 
 theorem byName_iff (o f : Nat) (c : Call) : byName o f c = true ↔ (c.fp = false ∧ c.owner = o ∧ c.fn = f) := by
   unfold byName
-  simp only [Bool.and_eq_true, Bool.not_eq_true', beq_iff_eq]
+  simp only [tie_byNameCond, Bool.and_eq_true, Bool.not_eq_true', beq_iff_eq]
   exact and_assoc
 
 theorem pendByName_iff (o f : Nat) (e : Pend) :
